@@ -118,7 +118,14 @@ def h_parse_format_string(ctx):
             return SymOpt(TokHasFmt(part), TokFmt(part))
         raise Unsupported('match.group(%r)' % (g,))
     sp.models['method:Obj:Match.group'] = Func(m_group)
-    sp.models['re.findall'] = Func(lambda I_, a, k, n: SymSeq([refs]))
+    # the references of the description template: the names str.format will look up (stdlib's string.Formatter().parse inside the helper
+    # _template_fields - trusted, bounded stand-in), or ValueError for a template str.format cannot read at all
+    def m_template_fields(I_, a, k, n):
+        if I_.ctx.choose(2, 'template.malformed'):
+            from pyvc.interp import PyRaise
+            raise PyRaise('ValueError', (), '_template_fields')
+        return SymSeq([refs])
+    sp.models['_template_fields'] = Func(m_template_fields)
     sp.models['list'] = Func(lambda I_, a, k, n: Untracked())
 
     def split_model(I_, a, k, n):
